@@ -290,6 +290,14 @@ def _check_success(cc, ctx, res, cfg, built, root, dest, fmt, kwargs, keypath, a
     except Exception:
         res.count("saved_state_does_not_validate_load_back_not_judged")
         return True
+    try:
+        if not trees.in_domain(fmt, cfg.to_tree()):
+            # a declared default outside the format's domain (XML: a dict key with a newline): what such a file
+            # loads back to is the codec's business (C04), not the save's
+            res.count("saved_state_outside_format_domain_load_back_not_judged")
+            return True
+    except Exception:
+        pass
     fresh = cc.Config(built.schema, key_filename=keypath)
     try:
         if kwargs:
